@@ -731,7 +731,7 @@ fn mapping_clamp(ctx: &mut Ctx) {
 			let res = crate::props::guarded(|| (lin.map(lo), lin.map(hi), lin.map(mid_in)));
 			match res {
 				Ok((a, b, mid)) => {
-					let near = |x: std::time::Duration, y: std::time::Duration| (x.as_secs_f64() - y.as_secs_f64()).abs() <= 2e-9;
+					let near = |x: std::time::Duration, y: std::time::Duration| (x.as_secs_f64() - y.as_secs_f64()).abs() <= 1e-8;
 					let want_mid = std::time::Duration::from_secs_f64((d0.as_secs_f64() + d1.as_secs_f64()) / 2.0);
 					if !near(a, d0) || !near(b, d1) || !near(mid, want_mid) {
 						bad = Some(format!("Mapping<Duration> {:?} -> {:?}: the ends and the middle of the input range map to {:?}, {:?}, {:?} (want {:?}, {:?}, {:?})", d0, d1, a, b, mid, d0, d1, want_mid));
